@@ -192,6 +192,17 @@ fn run_case(target: &str, seed: u64, len: usize) -> (String, String) {
                 rec!(s.next(), if i < k { F2::EQUILIBRIUM } else { at(&a, i - k) });
                 rec!(ca.get(), if i < k { 0 } else { i - k + 1 });
             }
+            // unsigned formats: equilibrium is mid-scale, not the all-zero bit pattern; also over an exhausted source
+            let au: Vec<[u8; 2]> = a.iter().map(|f| [(f[0] as u16 >> 8) as u8, (f[1] as u16 >> 8) as u8]).collect();
+            let (su, cu) = src(au.clone());
+            let mut s = su.delay(k);
+            for i in 0..(steps + k) {
+                rec!(s.is_exhausted(), i >= k && i - k >= au.len());
+                rec!(s.next(), if i < k { [128u8, 128] } else { at(&au, i - k) });
+                rec!(cu.get(), if i < k { 0 } else { i - k + 1 });
+            }
+            let mut s = signal::from_iter(Vec::<[u16; 1]>::new()).delay(k + 1);
+            for i in 0..(k + 3) { rec!(s.is_exhausted(), i >= k + 1); rec!(s.next(), [32768u16]); }
         }
         "RefMut::next" | "RefMut::is_exhausted" | "Signal::by_ref" => {
             let (mut sa, ca) = src(a.clone());
@@ -222,6 +233,14 @@ fn run_case(target: &str, seed: u64, len: usize) -> (String, String) {
             {   // inexact size_hint (lower bound 0): same frames required
                 let mut s = signal::from_iter(a.clone().into_iter().filter(|_| true));
                 for i in 0..steps { rec!(s.is_exhausted(), i >= a.len()); rec!(s.next(), at(&a, i)); }
+            }
+            {   // unsigned format: equilibrium (mid-scale) forever after the end
+                let v: Vec<[u8; 1]> = (0..len).map(|i| [i as u8]).collect();
+                let mut s = signal::from_iter(v.clone());
+                for i in 0..(len + 3) { rec!(s.next(), if i < len { v[i] } else { [128u8] }); }
+                let sv: Vec<u16> = (0..(2 * len + 1)).map(|i| i as u16).collect();
+                let mut s = signal::from_interleaved_samples_iter::<_, [u16; 2]>(sv.clone());
+                for i in 0..(len + 3) { rec!(s.next(), if i < len { [sv[2 * i], sv[2 * i + 1]] } else { [32768u16, 32768] }); }
             }
             let pulled = Rc::new(Cell::new(0usize)); let p2 = pulled.clone();
             let it = a.clone().into_iter().inspect(move |_| p2.set(p2.get() + 1));
@@ -616,6 +635,33 @@ fn run_case(target: &str, seed: u64, len: usize) -> (String, String) {
                     rec!(ca.get(), pulled);          // the source is pulled once per distinct frame
                 }
                 for (i, o) in outs.iter().enumerate() { if let Some(o) = o { rec!(o.pending_frames(), pulled - pos[i]); rec!(o.is_exhausted(), pulled - pos[i] == 0 && pulled >= data.len()); } }
+            }
+            // directed scenarios: several outputs at DISTINCT positions, one of them dropped (the unique slowest one, a middle
+            // one, the leader), then every survivor is read on: it must receive exactly the frames it is still owed
+            for variant in 0..3u64 {
+                let (sb, cb) = src(data.clone());
+                let bus2 = sb.bus();
+                let n_out = 3 + ((seed + variant) % 3) as usize;
+                let mut outs2: Vec<Option<dasp_signal::bus::Output<Src<F2>>>> = (0..n_out).map(|_| Some(bus2.send())).collect();
+                let mut pos2: Vec<usize> = vec![0; n_out];
+                let mut pulled2 = 0usize;
+                // output i pulls 2 * (n_out - 1 - i) + (seed % 2) frames: strictly decreasing, the last one none or one
+                for i in 0..n_out {
+                    let cnt = 2 * (n_out - 1 - i) + if i + 1 < n_out { (seed % 2) as usize } else { 0 };
+                    for _ in 0..cnt { rec!(outs2[i].as_mut().unwrap().next(), at(&data, pos2[i])); pos2[i] += 1; if pos2[i] > pulled2 { pulled2 = pos2[i]; } }
+                }
+                let victim = match variant { 0 => n_out - 1, 1 => n_out / 2, _ => 0 };
+                outs2[victim] = None;
+                for round in 0..3 {
+                    for i in 0..n_out {
+                        if let Some(o) = outs2[i].as_mut() {
+                            rec!(o.pending_frames(), pulled2 - pos2[i]);
+                            rec!(o.next(), at(&data, pos2[i]));
+                            pos2[i] += 1; if pos2[i] > pulled2 { pulled2 = pos2[i]; }
+                            rec!(cb.get(), pulled2);
+                        }
+                    }
+                }
             }
             // backlog retention: once every live output has caught up and they are pulled in step, the backlog stays
             // empty, so the bus performs no further heap operation (observed with the counting allocator)
